@@ -44,11 +44,12 @@ type jHdr struct {
 	Nonce   uint32 `json:"nonce"`
 }
 type input struct {
-	Kind  string `json:"kind"` // tx raw csw csr hash hdr hdrraw script scriptraw
+	Kind  string `json:"kind"`           // tx raw csw csr hash hdr hdrraw script scriptraw hist
+	Hist  []hop  `json:"hist,omitempty"` // hist: the calls of one history (hist.go)
 	Tx    *jTx   `json:"tx,omitempty"`
-	Raw   string `json:"raw,omitempty"`  // hex
-	V     uint64 `json:"v,omitempty"`    // csw
-	Str   string `json:"str,omitempty"`  // hash string (plain text)
+	Raw   string `json:"raw,omitempty"` // hex
+	V     uint64 `json:"v,omitempty"`   // csw
+	Str   string `json:"str,omitempty"` // hash string (plain text)
 	Order int    `json:"order,omitempty"`
 	Hdr   *jHdr  `json:"hdr,omitempty"`
 	Note  string `json:"note,omitempty"`
@@ -202,6 +203,11 @@ func run(in input, em *lib.Emitter, id string) {
 	var out interface{}
 	nontrivial := false
 	switch in.Kind {
+	case "hist":
+		coq, out = runHist(in.Hist, em)
+		key = fmt.Sprintf("hist|%x", sha256d([]byte(coq)))
+		nontrivial = len(in.Hist) >= 2
+		em.Tally(fmt.Sprintf("hist-len-%d", len(in.Hist)))
 	case "tx":
 		t := in.Tx.toTx()
 		var std, wit, inputs, outputs []byte
@@ -767,6 +773,10 @@ func main() {
 		}
 	}
 
+	for _, h := range corpusHists() {
+		run(input{Kind: "hist", Hist: h.ops, Note: "corpus"}, em, "corpus-hist-"+h.name)
+	}
+
 	// ---------------- exhaustive small scope: compact-size values around every boundary
 	for _, base := range []uint64{0, 253, 1 << 16, 1 << 32} {
 		for d := -3; d <= 3; d++ {
@@ -934,9 +944,18 @@ func main() {
 		run(input{Kind: "scriptraw", Raw: hex.EncodeToString(v), Note: note}, em, fmt.Sprintf("scriptraw-%d", i))
 	}
 
+	// ---------------- call histories: results are values
+	nHist := o.Count(150, 3000)
+	for i := 0; i < nHist; i++ {
+		r := rng.Fork(fmt.Sprintf("hist%d", i))
+		ops, mode := genHist(r)
+		run(input{Kind: "hist", Hist: ops, Note: mode}, em, fmt.Sprintf("hist-%d", i))
+	}
+
 	em.Close("a case is one transaction (serialised in both formats, split into parts, deserialised back, hashed), "+
-		"one raw byte string fed to Deserialize, one compact-size write/read, one hash string, one block header or one "+
-		"var-len script; distinct by content; non-trivial: a transaction with >= 1 input that carries witness data or a "+
+		"one raw byte string fed to Deserialize, one compact-size write/read, one hash string, one block header, one "+
+		"var-len script, or one history of 2..6 calls on one caller's long-lived objects whose kept results are read again "+
+		"at the end; distinct by content; a history of >= 2 calls is non-trivial; non-trivial: a transaction with >= 1 input that carries witness data or a "+
 		"count/length >= 253; a raw string that decodes; a compact-size value >= 253 or raw input >= 3 bytes; an accepted hash "+
 		"string; any header; a script of >= 253 bytes or an accepted var-len string", nil)
 }
